@@ -31,7 +31,7 @@ def _unit_worker(args):
 def units_for(db, prop):
     units = []
     for q, cd in sorted(db.contracts.items()):
-        if prop in cd.options.get("props", []) and not cd.options.get("trusted"):
+        if prop in cd.options.get("props", []) and not cd.options.get("trusted") and not cd.options.get("inline"):
             for v in R.variants_of(cd):
                 units.append(("contract", q, v))
     if not units:
